@@ -1,6 +1,7 @@
 """C07 SHA-1, MD5 and SHA-256 digests are the standard ones for every message."""
 from . import hash_rules
 LEVEL = 'proof'
+RULES = ('R07.a', 'R07.b', 'R07.d', 'R07.e', 'R07.f', 'R07.g', 'R07.s', 'R07.t', 'R11.f')
 
 
 def run(prog, rec, tier):
